@@ -165,7 +165,7 @@ class DnsRecordDnskey(ParsableBase, Serializable):
     def parse_key(cls, parsable, dnssec_algorithm):
         key_parser = ParserBinary(parsable)
 
-        if dnssec_algorithm.value.algorithm is None:
+        if not isinstance(dnssec_algorithm.value.algorithm, Signature):
             raise InvalidValue(dnssec_algorithm, cls, 'algorithm')
 
         public_key_type = dnssec_algorithm.value.algorithm.value.key_type
